@@ -3,22 +3,29 @@
 (* one sighash closure per (signature version, input) live through a SEQUENCE  *)
 (* of requests - as they do while a script with several signature checks is    *)
 (* evaluated (`<sigA> <pubA> CHECKSIGVERIFY <pubB> CHECKSIG`: the first check  *)
-(* removes the push of sigA, the second removes sigB, which does not occur).   *)
-(* The rule book has no memory: the digest of a request depends on its CURRENT *)
-(* arguments only (HistoryIndependent), just as computing a digest never       *)
-(* modifies the transaction.                                                   *)
+(* removes the push of sigA, the second removes sigB, which does not occur) -  *)
+(* and, between two requests, through EDITS of the transaction object (a       *)
+(* wallet signs, then replaces an output, bumps a sequence number, appends an  *)
+(* input, and signs or validates again).  The rule book has no memory: the     *)
+(* digest of a request depends on its CURRENT arguments and on the CURRENT     *)
+(* fields of the transaction only (HistoryIndependent), just as computing a    *)
+(* digest never modifies the transaction.                                      *)
 (*                                                                             *)
 (* The module is implementation shaped in one respect: Ask answers through a   *)
-(* memo keyed by Key(r).  With Key(r) = every argument of the request the memo *)
-(* is invisible and HistoryIndependent holds (MC_SighashHistory_*.cfg); with a *)
-(* key that forgets WHICH signature pushes are removed (BadKeyNoSigs) or the   *)
-(* code-separator offset (BadKeyNoBegin) TLC finds the two-request history     *)
-(* that returns a stale digest (MC_SighashHistory_bad*.cfg, model self-tests). *)
-(* Every history of length MaxLen is printed with the digest demanded at each  *)
-(* step; props/c04.py runs it on long-lived pycoin objects and on fresh ones.  *)
+(* memo keyed by Key(r, t).  With Key = every argument of the request and every *)
+(* field of the transaction the memo is invisible and HistoryIndependent holds *)
+(* (MC_SighashHistory_*.cfg); with a key that forgets WHICH signature pushes   *)
+(* are removed (BadKeyNoSigs), the code-separator offset (BadKeyNoBegin) or    *)
+(* the transaction's fields (BadKeyNoTx) TLC finds the history that returns a  *)
+(* stale digest (MC_SighashHistory_bad*.cfg, model self-tests).                *)
+(* Every history of length MaxLen (with at least MinEdits edits) is printed    *)
+(* with the digest demanded at each request and the fields after each edit;    *)
+(* props/c04.py runs it on long-lived pycoin objects and each request again on *)
+(* fresh objects built from the current fields.                                *)
 EXTENDS Sighash, TLC, Json
 
-CONSTANTS MaxLen,       \* length of the histories
+CONSTANTS MaxLen,       \* length of the histories (requests + edits)
+          MinEdits, MaxEdits,   \* how many of the steps are edits of the transaction
           CoinSet, SvSet, IdxSet, ScriptIds, SigSetIds, BeginSet, HtBase
 
 FF4 == Rep(255, 4)
@@ -48,43 +55,93 @@ Req(sv, i, s, b, g, ht) == [sv |-> sv, i |-> i, s |-> s, b |-> b, g |-> g, ht |-
 HtOf(coin) == {h + (IF UsesForkId(coin) THEN 64 ELSE 0) : h \in HtBase}
 Pool(coin) == {Req(sv, i, s, b, g, ht) : sv \in SigVersionsOf(coin) \cap SvSet, i \in IdxSet, s \in ScriptIds,
                                          b \in BeginSet, g \in SigSetIds, ht \in HtOf(coin)}
-\* the digest of a request: a function of the request alone
-Demanded(coin, r) == Digest(coin, r.sv, TheTx, r.i, Scripts[r.s].script, IF r.b = 1 THEN Scripts[r.s].sep ELSE 0,
-                            SigSets[r.g], Amts[r.i], r.ht)
+\* the state of the transaction object: its fields and the coins its inputs spend
+T0 == [tx |-> TheTx, amts |-> Amts]
+\* the digest of a request: a function of the request and the current fields alone
+Demanded(coin, t, r) == Digest(coin, r.sv, t.tx, r.i, Scripts[r.s].script, IF r.b = 1 THEN Scripts[r.s].sep ELSE 0,
+                               SigSets[r.g], t.amts[r.i], r.ht)
 
-\* memo keys (cfg: Key <- FullKey | BadKeyNoSigs | BadKeyNoBegin)
-FullKey(r) == r
-BadKeyNoSigs(r) == [r EXCEPT !.g = 0]
-BadKeyNoBegin(r) == [r EXCEPT !.b = 0]
-Key(r) == FullKey(r)
+(* edits of the object between two requests: e = [f |-> field, j |-> position (0: none)] *)
+Bump(bs) == [bs EXCEPT ![1] = (@ + 1) % 256]
+Ed(f, j) == [f |-> f, j |-> j]
+NewIn == TxIn(Sym(3), LE32(3), <<>>, LE32(9))
+NewAmt == <<9, 9, 0, 0, 0, 0, 0, 0>>
+NewOut == TxOut(<<5, 0, 0, 0, 0, 0, 0, 0>>, <<81>>)
+EditsOf(t) ==
+    {Ed("ver", 0), Ed("lock", 0), Ed("ins.append", 0), Ed("outs.append", 0)}
+    \cup {Ed(f, j) : f \in {"in.prev", "in.idx", "in.sigscript", "in.seq", "amount"}, j \in 1..Len(t.tx.ins)}
+    \cup {Ed(f, j) : f \in {"out.val", "out.script"}, j \in 1..Len(t.tx.outs)}
+    \cup (IF Len(t.tx.outs) > 0 THEN {Ed("outs.droplast", 0)} ELSE {})
+    \* (the requests of the pool name inputs 1..Len(TheTx.ins): no input is ever removed)
+Apply(t, e) ==
+    LET f == e.f
+        j == e.j
+    IN CASE f = "ver" -> [t EXCEPT !.tx.ver = Bump(@)]
+         [] f = "lock" -> [t EXCEPT !.tx.lock = Bump(@)]
+         [] f = "amount" -> [t EXCEPT !.amts[j] = Bump(@)]
+         [] f = "in.prev" -> [t EXCEPT !.tx.ins[j].prev = Sym(90 + j)]
+         [] f = "in.idx" -> [t EXCEPT !.tx.ins[j].idx = Bump(@)]
+         [] f = "in.sigscript" -> [t EXCEPT !.tx.ins[j].script = @ \o <<0>>]
+         [] f = "in.seq" -> [t EXCEPT !.tx.ins[j].seq = Bump(@)]
+         [] f = "out.val" -> [t EXCEPT !.tx.outs[j].val = Bump(@)]
+         [] f = "out.script" -> [t EXCEPT !.tx.outs[j].script = @ \o <<172>>]
+         [] f = "ins.append" -> [t EXCEPT !.tx.ins = Append(@, NewIn), !.amts = Append(@, NewAmt)]
+         [] f = "outs.append" -> [t EXCEPT !.tx.outs = Append(@, NewOut)]
+         [] f = "outs.droplast" -> [t EXCEPT !.tx.outs = Front(@)]
+\* memo keys (cfg: Key <- FullKey | BadKeyNoSigs | BadKeyNoBegin | BadKeyNoTx)
+FullKey(r, t) == [r |-> r, t |-> t]
+BadKeyNoSigs(r, t) == [r |-> [r EXCEPT !.g = 0], t |-> t]
+BadKeyNoBegin(r, t) == [r |-> [r EXCEPT !.b = 0], t |-> t]
+BadKeyNoTx(r, t) == [r |-> r, t |-> 0]
+Key(r, t) == FullKey(r, t)
 
-VARIABLES coin, hist, memo
-vars == <<coin, hist, memo>>
-Init == coin \in CoinSet /\ hist = <<>> /\ memo = <<>>
+VARIABLES coin, hist, memo, cur
+vars == <<coin, hist, memo, cur>>
+Init == coin \in CoinSet /\ hist = <<>> /\ memo = <<>> /\ cur = T0
 Hit(k) == {j \in 1..Len(memo) : memo[j].key = k}
+NEdits == Cardinality({j \in 1..Len(hist) : hist[j].k = "edit"})
+\* what the harness is told about a step: the request and the digest demanded NOW / the edit and the fields after it
+ShowT(t) == [ver |-> t.tx.ver, lock |-> t.tx.lock, ins |-> t.tx.ins, outs |-> t.tx.outs, amts |-> t.amts]
+Show(h) == IF h.k = "ask" THEN [k |-> "ask", r |-> h.r, exp |-> Demanded(coin, h.t, h.r)]
+           ELSE [k |-> "edit", e |-> h.e, after |-> ShowT(h.t)]
+Emit == Len(hist') = MaxLen =>
+           PrintT(ToJson([k |-> "hist", coin |-> coin, steps |-> [j \in 1..MaxLen |-> Show(hist'[j])]]))
+\* a history ends in a request (an edit nobody looks at afterwards is invisible) and begins with one
+\* (nothing can be stale before the first request); the edits still owed must fit in
 Ask(r) ==
     /\ Len(hist) < MaxLen
-    /\ LET k == Key(r)
-           out == IF Hit(k) # {} THEN memo[CHOOSE j \in Hit(k) : TRUE].out ELSE Demanded(coin, r)
-       IN /\ hist' = Append(hist, [r |-> r, out |-> out])
+    /\ 2 * (MinEdits - NEdits) <= MaxLen - Len(hist) - 1
+    /\ LET k == Key(r, cur)
+           out == IF Hit(k) # {} THEN memo[CHOOSE j \in Hit(k) : TRUE].out ELSE Demanded(coin, cur, r)
+       IN /\ hist' = Append(hist, [k |-> "ask", r |-> r, t |-> cur, out |-> out])
           /\ memo' = IF Hit(k) # {} THEN memo ELSE Append(memo, [key |-> k, out |-> out])
-    /\ UNCHANGED coin
-    /\ (Len(hist') = MaxLen =>
-           PrintT(ToJson([k |-> "hist", coin |-> coin, reqs |-> [j \in 1..MaxLen |-> hist'[j].r],
-                          exp |-> [j \in 1..MaxLen |-> Demanded(coin, hist'[j].r)]])))
+    /\ UNCHANGED <<coin, cur>>
+    /\ Emit
+Edit(e) ==
+    /\ Len(hist) < MaxLen - 1 /\ hist # <<>> /\ Last(hist).k = "ask" /\ NEdits < MaxEdits
+    /\ cur' = Apply(cur, e)
+    /\ hist' = Append(hist, [k |-> "edit", e |-> e, t |-> cur'])
+    /\ UNCHANGED <<coin, memo>>
 EmitTab == /\ hist = <<>> /\ memo = <<>> /\ coin = CHOOSE c \in CoinSet : TRUE
            /\ UNCHANGED vars
-           /\ PrintT(ToJson([k |-> "tab", ver |-> TheTx.ver, lock |-> TheTx.lock, ins |-> TheTx.ins, outs |-> TheTx.outs,
-                             amts |-> Amts, scripts |-> Scripts, sigsets |-> SigSets]))
-Next == EmitTab \/ \E r \in Pool(coin) : Ask(r)
+           /\ PrintT(ToJson([k |-> "tab", start |-> ShowT(T0), scripts |-> Scripts, sigsets |-> SigSets]))
+Asks == \E r \in Pool(coin) : Ask(r)
+Edits == \E e \in EditsOf(cur) : Edit(e)
+Next == EmitTab \/ Asks \/ Edits
 Spec == Init /\ [][Next]_vars
 
-(* the lemma: every answer ever given is the digest of its own request *)
-HistoryIndependent == \A j \in 1..Len(hist) : hist[j].out = Demanded(coin, hist[j].r)
+(* the lemma: every answer ever given is the digest of its own request on the fields the *)
+(* transaction had at that moment                                                        *)
+HistoryIndependent == \A j \in 1..Len(hist) : hist[j].k = "ask" => hist[j].out = Demanded(coin, hist[j].t, hist[j].r)
 (* the pool is worth the trouble: requests that agree on (script, begin, hash type, input,  *)
 (* version) but remove different signatures do differ in their digests, so a memo that        *)
 (* forgets the signatures cannot be right                                                     *)
-SigsMatter == \A r \in Pool(coin) :
+SigsMatter == hist = <<>> => \A r \in Pool(coin) :
                  (r.sv = "base" /\ RemovesSignatures(coin, r.sv) /\ r.g = 2 /\ r.s = 1 /\ r.b = 0 /\ 3 \in SigSetIds)
-                     => Demanded(coin, r) # Demanded(coin, [r EXCEPT !.g = 3])
+                     => Demanded(coin, T0, r) # Demanded(coin, T0, [r EXCEPT !.g = 3])
+(* ... and so are the edits: each one changes the digest of some request of the pool (the     *)
+(* scriptSig of an input is signed by nobody - that edit must change NO digest), so a memo    *)
+(* that forgets the fields cannot be right                                                    *)
+EditsMatter == hist = <<>> => \A e \in EditsOf(T0) :
+                 (e.f = "in.sigscript") <=> (\A r \in Pool(coin) : Demanded(coin, Apply(T0, e), r) = Demanded(coin, T0, r))
 =============================================================================
